@@ -22,7 +22,7 @@ TECHNIQUE = "deterministic simulation: real main() on a virtual clock, seeded tr
 G_US = 3_000_000
 LOW_SLACK_US = 150_000
 VALUES = [None, 0, 1, 2, 5, 30, 600, 3600]
-KINDS = [("http", 3), ("socks5", 2), ("socks4", 1), ("reverse", 2), ("quic", 1), ("socks5udp", 2), ("reverseudp", 2)]
+KINDS = [("http", 3), ("socks5", 2), ("socks4", 1), ("reverse", 2), ("quic", 1), ("socks5udp", 2), ("reverseudp", 2), ("httpudp", 2)]
 
 
 def wchoice(rng, items):
@@ -43,7 +43,7 @@ def gen(rng, tier, i):
     kind = wchoice(rng, KINDS)
     if tier == "quick" and kind == "quic" and rng.random() < 0.5:
         kind = "http"
-    is_udp = kind in ("socks5udp", "reverseudp")
+    is_udp = kind in ("socks5udp", "reverseudp", "httpudp")
     T = (udp if udp is not None else 600) if is_udp else (idle if idle is not None else 600)
     sc.net["chaos"] = dict(G.CHAOS_LEVELS[rng.choice(["none", "mild", "mild"])])
     if sc.net["chaos"]:
@@ -113,7 +113,19 @@ def gen(rng, tier, i):
         oip, oport = oaddr.split(":")
         sc.actors.append({"essential": True, "kind": "udp", "id": "uorigin", "bind": oaddr, "echo": True, "ops": []})
         n = rounds if pattern != "silent" else 1
-        if kind == "reverseudp":
+        if kind == "httpudp":
+            # a UDP association carried over the HTTP listener (inline frames): timeouts.udp applies to it
+            li = sc.add_http_listener("l")
+            req = rc.http_connect(oaddr, [("Host", oaddr), ("Proxy-Protocol", "udp")])
+            w = []
+            for k in range(n if pattern != "silent" else 0):
+                w += [send(rc.rpfm_frame(0, oip, int(oport), bytes([48 + k]) * 4)), op("sleep", ms=period_ms)]
+            w.append(op("sleep", ms=horizon_ms + period_ms * (n + 2)))
+            rr = [op("recv_rpfm", timeout_ms=horizon_ms + period_ms * (n + 2), label="data", on_fail="continue") for k in range(n if pattern != "silent" else 0)]
+            rr.append(op("recv_eof", timeout_ms=horizon_ms + period_ms * (n + 2), label="closed"))
+            sc.add_client("c", li, [send(req), op("recv_http_head", label="reply"), op("par", w=w, r=rr)], start_ms=10)
+            meta["cid"] = "c"
+        elif kind == "reverseudp":
             li = sc.add_reverse_listener("l", oaddr, protocol="udp")
             ops = []
             for k in range(n):
@@ -172,7 +184,7 @@ def oracle(plan, out):
         v("panic", "panic at %s: %s" % (p.get("loc"), p.get("msg", "")))
     T = meta["T"]
     kind = meta["kind"]
-    is_udp = kind in ("socks5udp", "reverseudp")
+    is_udp = kind in ("socks5udp", "reverseudp", "httpudp")
     # --- find the record of our tunnel in the API history
     hist = R.history("hist")
     rec = None
@@ -209,7 +221,14 @@ def oracle(plan, out):
         if closed is not None and not closed["res"].startswith("timeout"):
             close_t = closed["t1"]
     else:
-        if kind == "socks5udp":
+        if kind == "httpudp":
+            rep = R.op_by_label("c", "reply")
+            if rep is None or rep["res"] != "ok" or not bytes.fromhex(rep["hex"]).startswith(b"HTTP/1.1 200"):
+                return V
+            closed = R.op_by_label("c", "closed")
+            close_t = closed["t1"] if closed is not None and not closed["res"].startswith("timeout") else None
+            start = (R.connect("c") or {}).get("t1")
+        elif kind == "socks5udp":
             rep = R.op_by_label("c", "reply")
             if rep is None or rep["res"] != "ok":
                 return V
@@ -260,5 +279,5 @@ def probes(plan, out):
     return {"nontrivial": R.ok and R.res.get("end_us", 0) > 1_000_000,
             "idle_close_observed": bool(closed and not closed["res"].startswith("timeout")),
             "disabled_timeout": meta["T"] == 0,
-            "udp_session": meta["kind"] in ("socks5udp", "reverseudp"),
+            "udp_session": meta["kind"] in ("socks5udp", "reverseudp", "httpudp"),
             "trickle": meta["pattern"].startswith("trickle")}
